@@ -181,43 +181,54 @@ Qed.
 Definition eval_regular (d : @dimn A) (x : K) : Prop :=
   le (d_kn d (d_naxes d)) x -> lt (d_kn d (d_naxes d - 1)) x.
 
-Lemma dim_rel_val (d : @dimn A) (x : K) (c : Z) :
+(* what the lookup's postcondition gives the margin walk *)
+Lemma lookup_walk_post (d : @dimn A) (x : K) (c : Z) :
   wf_dim anyord d -> in_range d x -> center_post d x c -> eval_regular d x ->
-  dim_rel d x 0 c (localbasis_val d x c).
+  (forall i j, 0 <= i -> i <= j -> j < d_nknots d -> le (d_kn d i) (d_kn d j)) /\
+  2 * Z.of_nat (d_order d) + 2 <= d_nknots d /\ d_naxes d = d_nknots d - Z.of_nat (d_order d) - 1 /\
+  Z.of_nat (d_order d) <= c <= d_naxes d - 1 /\
+  walk_post (d_kn d) (d_nknots d) (d_order d) x (side_of d x) c
+            (adjust_left (d_kn d) (d_nknots d) (Z.of_nat (d_order d)) x c).
 Proof.
   intros [W1 [W2 [_ W4]]] [R1 R2] [P1 [P2 [P3 P4]]] Hreg.
   set (kn := d_kn d) in *. set (nk := d_nknots d) in *. set (n := d_order d) in *. set (na := d_naxes d) in *.
   assert (Hmono : forall i j, 0 <= i -> i <= j -> j < nk -> le (kn i) (kn j)) by exact W4.
-  assert (Hside : exists side, side_of d x = side /\
-            walk_post kn nk n x side c (adjust_left kn nk (Z.of_nat n) x c)).
-  { unfold side_of. fold kn na.
-    destruct (ltb x (kn (Z.of_nat n))) eqn:E1.
-    - (* left margin *)
-      specialize (P3 eq_refl). subst c. exists true. split.
-      + apply (lt_le_trans F _ (kn (Z.of_nat n))); [exact E1|apply Hmono; lia].
-      + apply (adjust_left_margin F kn nk n ltac:(lia) x R1 E1).
-    - assert (L1 : le (kn (Z.of_nat n)) x) by (apply (nlt_le F); exact E1).
-      destruct (leb (kn na) x) eqn:E2.
-      + (* upper end and right margin *)
-        specialize (P4 eq_refl). exists false. split.
-        * apply (le_not_lt F). exact E2.
-        * assert (Hc : c = nk - Z.of_nat n - 2) by lia. rewrite Hc.
-          apply (adjust_upper F kn nk n ltac:(lia) x).
-          -- replace (nk - Z.of_nat n - 2 + 1) with na by lia. exact E2.
-          -- exact R2.
-          -- replace (nk - Z.of_nat n - 2) with (na - 1) by lia. apply Hreg. exact E2.
-      + (* fully supported interior *)
-        assert (L2 : lt x (kn na)) by (apply (nle_lt F); exact E2).
-        destruct (P2 L1 L2) as [Q1 Q2]. exists true. split; [exact L2|].
-        apply (adjust_interior F kn nk n x c); [lia|]. split; assumption. }
-  destruct Hside as [side [Es W]].
-  unfold dim_rel. cbv zeta. fold n na kn. rewrite Es.
-  split; [lia|]. split.
-  - unfold localbasis_val. fold kn nk n.
-    rewrite (bsplvb_simple_B F kn nk Hmono n x side c W). reflexivity.
+  split; [exact Hmono|]. split; [exact W1|]. split; [exact W2|]. split; [lia|].
+  unfold side_of. fold kn na.
+  destruct (ltb x (kn (Z.of_nat n))) eqn:E1.
+  - (* left margin *)
+    specialize (P3 eq_refl). subst c.
+    replace (ltb x (kn na)) with true.
+    + apply (adjust_left_margin F kn nk n ltac:(lia) x R1 E1).
+    + symmetry. apply (lt_le_trans F _ (kn (Z.of_nat n))); [exact E1|apply Hmono; lia].
+  - assert (L1 : le (kn (Z.of_nat n)) x) by (apply (nlt_le F); exact E1).
+    destruct (leb (kn na) x) eqn:E2.
+    + (* upper end and right margin *)
+      specialize (P4 eq_refl).
+      replace (ltb x (kn na)) with false by (symmetry; apply (le_not_lt F); exact E2).
+      assert (Hc : c = nk - Z.of_nat n - 2) by lia. rewrite Hc.
+      apply (adjust_upper F kn nk n ltac:(lia) x).
+      * replace (nk - Z.of_nat n - 2 + 1) with na by lia. exact E2.
+      * exact R2.
+      * replace (nk - Z.of_nat n - 2) with (na - 1) by lia. apply Hreg. exact E2.
+    + (* fully supported interior *)
+      assert (L2 : lt x (kn na)) by (apply (nle_lt F); exact E2).
+      destruct (P2 L1 L2) as [Q1 Q2]. replace (ltb x (kn na)) with true by (symmetry; exact L2).
+      apply (adjust_interior F kn nk n x c); [lia|]. split; assumption.
+Qed.
+
+Lemma dim_rel_val (d : @dimn A) (x : K) (c : Z) :
+  wf_dim anyord d -> in_range d x -> center_post d x c -> eval_regular d x ->
+  dim_rel d x 0 c (localbasis_val d x c).
+Proof.
+  intros Hw Hr Hp Hreg.
+  destruct (lookup_walk_post d x c Hw Hr Hp Hreg) as [Hmono [W1 [W2 [Hc W]]]].
+  unfold dim_rel. cbv zeta. split; [exact Hc|]. split.
+  - unfold localbasis_val.
+    rewrite (bsplvb_simple_B F _ _ Hmono _ x _ c W). reflexivity.
   - intros i Hi Hout. cbn [dBfun].
-    destruct W as [Hl0 [Hl1 [Hp [Hc Hrel]]]].
-    apply (Bfun_support F kn nk Hmono side _ x Hl0 Hl1 Hp); lia.
+    destruct W as [Hl0 [Hl1 [Hpc [Hcc Hrel]]]].
+    apply (Bfun_support F _ _ Hmono _ _ x Hl0 Hl1 Hpc); lia.
 Qed.
 
 Lemma localbases_mask_zero : forall (ds : list (@dimn A)) xs cs,
